@@ -211,7 +211,8 @@ fn run_generate(
     }
     reporter.complete_step(Some(&format!("Found {} commands", commands.len())));
 
-    if commands.is_empty() {
+    // A project may emit events without defining commands: its listeners are still generated
+    if commands.is_empty() && analyzer.get_discovered_events().is_empty() {
         println!("⚠️  No Tauri commands found. Make sure your project contains functions with #[tauri::command] attributes.");
         return Ok(());
     }
